@@ -141,6 +141,22 @@ def correspondence(ctx):
                 ctx.agree(f"{c['op']} {c['name']} bs={bs}", (c['name'], bs))
             else:
                 ctx.disagree(f"{c['op']} {c['name']} bs={bs}", str(m_[0]), f'{n_impl} (theta.shape {tuple(m.theta.shape)}; functional map: {ok if isinstance(ok, str) else "accepts"})')
+    # sizes given as numpy integers instead of Python ints must give the same constructor (dtype class of the hardening list)
+    Mm = M()
+    for d, r in ((3, 2), (4, 4)):
+        for name, mk in (('Ball', lambda D, R: Mm.Ball(D)), ('Sphere', lambda D, R: Mm.Sphere(D)), ('DiscreteProbability', lambda D, R: Mm.DiscreteProbability(D)),
+                         ('Trace1PSD', lambda D, R: Mm.Trace1PSD(D, R)), ('SymmetricMatrix', lambda D, R: Mm.SymmetricMatrix(D)),
+                         ('SpecialOrthogonal', lambda D, R: Mm.SpecialOrthogonal(D)), ('Stiefel', lambda D, R: Mm.Stiefel(D, R)),
+                         ('Stiefel-euler', lambda D, R: Mm.Stiefel(D, R, method='euler', dtype=torch.complex128))):
+            a = guarded(lambda: mk(d, r)); b = guarded(lambda: mk(np.int64(d), np.int64(r))); c_ = guarded(lambda: mk(np.int32(d), np.int32(r)))
+            ctx.count('numpy-int-sizes')
+            shp = lambda m: m if isinstance(m, str) else tuple(m.theta.shape)
+            if shp(a) == shp(b) == shp(c_) and not isinstance(a, str):
+                with torch.no_grad():
+                    ok = guarded(lambda: (b().shape, c_().shape))
+                if not isinstance(ok, str):
+                    ctx.agree(f'{name}({d},{r}) numpy-int sizes', (name, d, r, 'npint')); continue
+            ctx.disagree(f'{name}({d},{r}) with np.int64/np.int32 sizes', str(shp(a)), f'{shp(b)} / {shp(c_)}')
     for c, m_ in list(zip(cfgs, ml))[:3]:
         ctx.sample({'op': c['op'], 'class': c['name'], 'model(count, rank)': m_})
     ctx.extra['exhaustive'] = True
@@ -248,6 +264,12 @@ def probe(ctx):
         else:
             for r, th, sv in results:
                 ctx.probe_ok((name, tuple(np.round(th.reshape(-1).numpy()[:3], 6))))
+        # history: differentiating must not change the module (forward twice, parameters untouched)
+        th0 = m.theta.detach().clone()
+        with torch.no_grad():
+            a1 = guarded(lambda: m()); a2 = guarded(lambda: m())
+        if isinstance(a1, str) or isinstance(a2, str) or not torch.equal(a1, a2) or not torch.equal(m.theta.detach(), th0):
+            ctx.fail('module-state-changed', f"{name}: forward() is not reproducible after the Jacobian evaluations / parameters changed", dict(cls=name))
     ctx.extra['rank_criterion'] = (f'rank = #(sigma_i > {RANK_REL}*sigma_1) of the float64 autograd Jacobian of module.forward() w.r.t. module.theta (real and imaginary parts stacked); '
                                    f'a draw is used when sigma_k >= {CLEAN_HI}*sigma_1 and sigma_(k+1) <= {CLEAN_LO}*sigma_1 or when the rank differs from the claim; verdict by majority over the draws')
     ctx.extra['ambiguous_draws_redrawn'] = ambiguous
